@@ -191,6 +191,22 @@ def readings(text, atoms, prefixes):
 
 
 # ---- generation ------------------------------------------------------------------------------------
+def cpp_lit(lab):
+    """C++ narrow string literal for a label held as one character per byte"""
+    out, need_split = ['"'], False
+    for ch in lab:
+        if ord(ch) >= 0x80:
+            out.append(f"\\x{ord(ch):02x}")
+            need_split = True
+        else:
+            if need_split:
+                out.append('" "')  # end the hex escape before an ordinary character
+                need_split = False
+            out.append(ch)
+    out.append('"')
+    return "".join(out)
+
+
 def wrap_typedefs(tree, rnd, decls, tdinfo, leaves, depth=0):
     """randomly replace subtrees by strong typedefs (labeled or not)"""
     k = tree[0]
@@ -201,7 +217,10 @@ def wrap_typedefs(tree, rnd, decls, tdinfo, leaves, depth=0):
         name = f"VfT{len(tdinfo)}"
         labeled = rnd.random() < 0.5
         # (a user unit may also carry the empty string as its label - a dimensionless "count", say)
-        lab = ("" if rnd.random() < 0.15 else f"t{len(tdinfo)}x") if labeled else None
+        # ... or non-ASCII bytes (UTF-8 for the Greek capital omega, the micro sign, the degree sign), kept here as one character per byte
+        r_ = rnd.random()
+        n_ = len(tdinfo)
+        lab = ("" if r_ < 0.15 else (rnd.choice([f"\u00ce\u00a9{n_}q", f"\u00c2\u00b5{n_}m", f"d{n_}\u00c2\u00b0"]) if r_ < 0.35 else f"t{n_}x")) if labeled else None
         tdinfo[name] = (inner, lab)
         return ("leaf", name)
     if k in ("mul", "div"):
@@ -271,7 +290,7 @@ def run(chk, which="C18"):
             if lab is None:
                 decls.append(f"struct {name} : decltype({expr}) {{}};")
             else:
-                decls.append(f'struct {name} : decltype({expr}) {{ static constexpr const char label[] = "{lab}"; }}; constexpr const char {name}::label[];')
+                decls.append(f'struct {name} : decltype({expr}) {{ static constexpr const char label[] = {cpp_lit(lab)}; }}; constexpr const char {name}::label[];')
         for i, t in enumerate(trees):
             tag = f"l{ti}_{i}"
             expr = spell_x(t, units_x)
@@ -473,9 +492,16 @@ def run_itoa_and_stream(chk, tier):
         v = rnd.getrandbits(rnd.randint(1, 63))
         vals |= {v, -v}
     uvals = {0, 1, 9, 10, 2 ** 64 - 1, 2 ** 64 - 59, 2 ** 63, 10 ** 19, 10 ** 19 - 1} | {10 ** k for k in range(20)} | {rnd.getrandbits(64) for _ in range(100)}
-    L = ['#include "au/au.hh"', '#include "au/io.hh"', '#include "au/units/meters.hh"', '#include "au/units/seconds.hh"', "#include <sstream>", "#include <cstdio>", "#include <cstring>", "#include <cstdint>",
+    L = ['#include "au/au.hh"', '#include "au/io.hh"', '#include "au/units/meters.hh"', '#include "au/units/seconds.hh"', "#include <sstream>", "#include <iomanip>", "#include <cstdio>", "#include <cstring>", "#include <cstdint>",
          "template <typename S> void put(const char *kind, long long a, unsigned long long u, const S &s) { printf(\"{\\\"ev\\\":\\\"itoa\\\",\\\"kind\\\":\\\"%s\\\",\\\"a\\\":%lld,\\\"u\\\":%llu,\\\"s\\\":\\\"%s\\\",\\\"size\\\":%zu,\\\"sizeof\\\":%zu}\\n\", kind, a, u, s.c_str(), s.size(), sizeof(s.char_array())); }",
          "template <typename Q> void st(const char *rep, Q q, long double v) { std::ostringstream os; os << q; printf(\"{\\\"ev\\\":\\\"stream\\\",\\\"rep\\\":\\\"%s\\\",\\\"v\\\":\\\"%.21Lg\\\",\\\"out\\\":\\\"%s\\\"}\\n\", rep, v, os.str().c_str()); }",
+         # the same quantity into an identically configured second stream as "<promoted raw value> <label>": "prints its numeric value" means
+         # the number is formatted by the stream it is sent to, with whatever flags, precision, width and fill the caller set on it
+         "template <typename Q> void stf(const char *rep, Q q, int mode) { std::ostringstream a, b; auto cfg = [&](std::ostream &o) { switch (mode) { case 0: o << std::fixed << std::setprecision(1); break; "
+         "case 1: o << std::scientific << std::setprecision(3) << std::uppercase; break; case 2: o << std::hex << std::showbase; break; case 3: o << std::showpos; break; "
+         "case 4: o << std::setw(12) << std::left << std::setfill('*'); break; case 5: o << std::showpoint << std::setprecision(3); break; default: o << std::oct; } }; cfg(a); cfg(b); "
+         "a << q; b << +q.in(typename Q::Unit{}) << \" \" << au::unit_label(typename Q::Unit{}); "
+         "printf(\"{\\\"ev\\\":\\\"streamf\\\",\\\"rep\\\":\\\"%s\\\",\\\"mode\\\":%d,\\\"out\\\":\\\"%s\\\",\\\"want\\\":\\\"%s\\\"}\\n\", rep, mode, a.str().c_str(), b.str().c_str()); }",
          "int main() {"]
     for v in sorted(vals):
         lit = f"{v}LL" if v > -(2 ** 63) else "(-9223372036854775807LL-1)"
@@ -496,6 +522,10 @@ def run_itoa_and_stream(chk, tier):
             L.append(f'  st("{rep}", (au::meters / au::second)(({rep}){lit}), (long double)(({rep}){lit}));')
             L.append(f'  st("pt:{rep}", au::meters_pt(({rep}){lit}), (long double)(({rep}){lit}));')
             ns += 3
+    for rep, v in (("double", "1234567.0"), ("float", "2.5f"), ("int", "255"), ("int8_t", "(int8_t)65"), ("uint8_t", "(uint8_t)200"), ("int64_t", "-255LL"), ("long double", "0.1L"), ("uint16_t", "(uint16_t)4096")):
+        for mode in range(7):
+            L.append(f'  stf("{rep}", au::meters(({rep}){v}), {mode}); stf("{rep}", (au::meters / au::second)(({rep}){v}), {mode});')
+            ns += 2
     # const-qualified unit types (decltype of a constexpr unit variable) must stream exactly like the unit
     L.append('  { constexpr auto mps = au::Meters{} / au::Seconds{}; st("int", au::make_quantity<decltype(mps)>(65), 65.0L); st("double", au::make_quantity<const decltype(au::Meters{} / au::Seconds{})>(2.5), 2.5L); st("int", au::make_quantity<const au::Meters>(65), 65.0L); }')
     ns += 3
@@ -521,6 +551,10 @@ def run_itoa_and_stream(chk, tier):
             want = str(ev["a"]) if ev["kind"] == "i" else str(ev["u"])
             if ev["s"] != want or ev["size"] != len(want) or ev["sizeof"] != len(want) + 1:
                 chk.violation(f'C18|itoa|{ev["kind"]}|n={want}', msg=f'{"IToA" if ev["kind"] == "i" else "UIToA"}<{want}> renders "{ev["s"]}" (size {ev["size"]}, sizeof {ev["sizeof"]})')
+        elif ev["ev"] == "streamf":
+            nb += 1
+            if ev["out"] != ev["want"]:
+                chk.violation(f'C18|stream_format|rep={ev["rep"]}|mode={ev["mode"]}', msg=f'operator<< of a {ev["rep"]} quantity into a stream with format mode {ev["mode"]} (0 fixed.1, 1 SCIENTIFIC.3, 2 hex showbase, 3 showpos, 4 width 12 left fill *, 5 showpoint.3, 6 oct) printed "{ev["out"]}"; the raw value and label sent to the same stream print "{ev["want"]}"')
         elif ev["ev"] == "stream":
             nb += 1
             out = ev["out"]
